@@ -430,10 +430,20 @@ func runC05(c *config) {
 			}
 		}
 	}
+	// type aliases through the skeleton model: undefined target, defined target, cycle
+	for _, h := range []struct{ src, sk string }{
+		{"%a = type %b\n", "type|%a|alias:%b|||"},
+		{"%a = type %b\n%b = type { i32 }\n", "type|%a|alias:%b|||;type|%b|plain|||"},
+		{"%a = type %b\n%b = type %a\n", "type|%a|alias:%b|||;type|%b|alias:%a|||"},
+		{"%a = type %b\n%b = type %c\n%c = type opaque\n", "type|%a|alias:%b|||;type|%b|alias:%c|||;type|%c|opaque|||"},
+	} {
+		_, oc, _ := parseGuard(h.src)
+		o.Case("skeleton", []string{h.sk}, []string{oc.String()})
+	}
 	// hand-written faults with a known outcome; the listed defects carry their class
 	type hw struct{ src, class, want string }
 	for _, h := range []hw{
-		{"%a = type %b\n", "alias_to_undefined_type", "Err"},
+		{"%a = type %b\n", "", "Err"},
 		{"%a = type opaque\n%a = type { i32 }\n", "typedef_after_opaque", "Err"},
 		{"%v = type <vscale x 2 x i32>\n", "scalable_typedef", "Ok"},
 		{"@g = global i32* @h\n", "", "Err"},
